@@ -111,7 +111,8 @@ class Recorder:
         def _marker(interp: Any, ctx: Any, event: Any, action_def: Any) -> None:
             t, n = ev_key(event)
             self.log.append(
-                ("A", name, t, n, conf_ids(interp) if self.with_conf else None)
+                ("A", name, t, n, conf_ids(interp) if self.with_conf else None,
+                 self.clock() if self.clock is not None else None)
             )
             if self.budget is not None and len(self.log) > self.budget:
                 from .core import Budget
@@ -174,7 +175,7 @@ class RecPlugin(PluginBase):
         self.rec.log.append(("START", interpreter.id))
 
     def on_interpreter_stop(self, interpreter: Any) -> None:
-        self.rec.log.append(("STOP", interpreter.id))
+        self.rec.log.append(("STOP", interpreter.id, self.rec.clock() if self.rec.clock is not None else None))
 
     def on_event_received(self, interpreter: Any, event: Any) -> None:
         t, n = ev_key(event)
